@@ -501,13 +501,15 @@ def run_mask_dtypes(case, seed, R):
         # (unsigned arithmetic wraps) and are outside the domain of THIS route; babinet takes no shift
         if sh == (0, 0) and (MD_BABINET_UNSIGNED_COUNTS or not (kind == 'unsigned' and p.max() > 1)) and Tc is not None:
             wantb = x - (Tc @ x.ravel()).reshape(n)
-            for lk in ('none', 'real'):
+            for lk in ('none', 'real', 'mask-dtype'):
                 lyot = None if lk == 'none' else dense(n, seed, 24, complex_=False)
+                if lk == 'mask-dtype':      # a Lyot stop stored like the mask: 0/1 for bool, transmission counts 0..3 otherwise
+                    lyot = md_cast(md_pattern('binary' if kind == 'bool' else 'counts', n, vmax, seed + 1), dt)
                 o = R.call(Wavefront(x.copy(), wvl, dx, 'pupil').babinet, efl, lyot, m, fpm_dx, method=method, sig=f'Wavefront.babinet:{method}:mask-dtype:exception')
                 if o is FAILED:
                     continue
-                L = 1.0 if lyot is None else lyot
-                tb = tol * (1.0 if lyot is None else 1.0 + float(np.abs(lyot).max()))
+                L = 1.0 if lyot is None else lyot.astype(wide)
+                tb = tol * (1.0 if lyot is None else 1.0 + float(np.abs(L).max()))
                 R.expect_close(getattr(o, 'data', None), L * wantb, tb, f'Wavefront.babinet:mask-dtype:{method}:{cell}', f'babinet(lyot-{lk}, fpm) != lyot*(f - T(1-fpm) f): {where}')
                 if full:
                     R.expect_close(getattr(o, 'data', None), L * want, tb, f'Wavefront.babinet:mask-dtype:{method}:{cell}', f'on the full-band grid babinet(lyot-{lk}, fpm) != lyot*T(fpm) f: {where}')
@@ -1071,7 +1073,7 @@ def plan(tier, seed):
                   'every pattern the dtype can hold exactly, complex masks = pattern*(1+0.5j)) x 2 geometries (pupil (3,4), 6x6 full-band mask, no shift; pupil (4,3), 5x7 mask on part of the band, shift (0.5,-1) samples) x {mdft, czt}; '
                   f'memory layouts {MD_LAYOUTS} for counts in uint8 / int64 / float64 and the bool spot.  Operator matrices from all complex deltas: T(mask) + T(1-mask) = T(ones) with the complement formed in float64/complex128 and, '
                   'where the dtype can hold it, in the mask\'s own dtype; T(a) + T(b) = T(a+b) for the two overlapping binary masks and for the even-row / odd-row halves of every pattern; T(k*mask) = k*T(mask), k in {3, -2}, where representable; '
-                  'T(ones of the dtype) = T(float64 ones) (= I on the full band); function and Wavefront.to_fpm_and_back on a dense field through the call-hygiene layer; Wavefront.babinet(lyot in {None, real}, mask) = lyot*(f - T(1-mask) f) '
+                  'T(ones of the dtype) = T(float64 ones) (= I on the full band); function and Wavefront.to_fpm_and_back on a dense field through the call-hygiene layer; Wavefront.babinet(lyot in {None, real float64, an integer-valued Lyot array of the mask dtype}, mask) = lyot*(f - T(1-mask) f) '
                   '(= lyot*T(mask) f on the full band) -- except unsigned masks holding values above 1, whose complement babinet cannot form in the mask\'s dtype', reset=rs),
         HistoryUnit('embedding_history', he_inits, he_fresh, he_events, he_apply, he_check, he_canon, 2,
                     'for each family (output M, input lengths that round to the same fast FFT length: 14,15,16 -> 16; 30,31,32 -> 32; 62,63,64 -> 64; square and two non-square members) x 2 unit sets: every history of length <= 2 over '
